@@ -7,14 +7,14 @@ NOTE = "Trusted: reference interpreter (harness/src/refint.rs), generator/printe
 def T(what):
     return what + " Held on the executions observed (counts in the evidence file); not a proof."
 CHECKS = {
- "C01": dict(level="exploration", design="3/C01", technique=DIFF + " (differential oracle over the whole row stream)", note=NOTE,
-   text=T("The crate's complete row stream (line, input values, expected values, end) is compared with the stream prescribed by an independent reference interpreter on ~30k (quick) / 1.5M (thorough) generated programs per build profile plus an enumerated small space of loop nests with bounds in {-1,0,1,2}.")),
+ "C01": dict(level="exploration", design="3/C01", technique=DIFF + " (differential oracle over the whole row stream; part of the case space is an enumerated program grammar)", note=NOTE,
+   text=T("The crate's complete row stream (line, input values, expected values, end) is compared with the stream prescribed by an independent reference interpreter on 150k (quick) / 2M (thorough) generated programs per build profile, plus the complete enumeration of a loop/while/repeat/let program grammar of depth <= 2 (100 338 programs in quick, 4.4M in thorough) for which vars() is compared as well.")),
  "C02": dict(level="exploration", design="3/C02", technique="runtime monitoring: online protocol checker over the recorded driver-call log, evaluated after every next()", note=NOTE,
    text=T("A recording TestDriver logs every call before answering; after every step an online oracle checks one-call-per-row, verbatim inputs, call kind (output-reading vs write_input), laziness, silence after End and full accounting of the log, with and without injected driver errors and with both driver variants.")),
  "C03": dict(level="exploration", design="3/C03", technique="runtime monitoring: per-row attribution oracle over unique device answers + exhaustive verdict table", note=NOTE,
    text=T("For every checked row the oracle recomputes each reported output from the recorded answer of that very call (unique values per call and signal, random subset/permutation layouts, Z/X/boundary values) and checks check()/is_checked()/failing_outputs() against the stated X/Z rules; the 37x37 value table of check() is enumerated.")),
- "C04": dict(level="exploration", design="3/C04", technique=DIFF + " with feedback devices and unique answers (staleness visible)", note=NOTE,
-   text=T("Programs reading device outputs at every expression site are run against devices whose every answer is unique; device-side vectors and expected values must equal those the reference computes from the latest output-reading call; Z/X reads and missing outputs must surface as the stated errors.")),
+ "C04": dict(level="exploration", design="3/C04", technique=DIFF + " with feedback devices and unique answers (staleness visible); anchored by a behavioural model of the repo's Counter fixture", note=NOTE,
+   text=T("Programs reading device outputs at every expression site are run against devices whose every answer is unique; device-side vectors and expected values must equal those the reference computes from the latest output-reading call; Z/X reads and missing outputs must surface as the stated errors. The repo's own Counter.dig tests are also run against a behavioural model of Counter.v (every checked entry must pass, the Failing test must fail, and the reference must prescribe the same history).")),
  "C05": dict(level="exploration", design="3/C05", technique=DIFF + " (expansion order oracle) + enumeration of all short rows over {0,1,X,C,Z}", note=NOTE,
    text=T("The observed row/call sequence of rows containing C and X is compared with the documented expansion (leftmost X fastest, 0 first; clock triple 0,1,0 with only the last row checked) on generated programs and on all rows of width <= 4 over {0,1,X,C,Z} for three configurations.")),
  "C06": dict(level="exploration", design="3/C06", technique="runtime monitoring: structural oracle from header+signal list, `changed` checked against the recorded previous device vector", note=NOTE,
